@@ -617,7 +617,13 @@ func runShared(t *testing.T, c sharedCase) (viol string) {
 					}
 				}
 			}
-			w.Send(sampler, &dagazpb.DagazQuadSample{Type: TQuadSample, Timestamp: ts, Samples: []*dagazpb.Quad{q.proto()}})
+			samples := []*dagazpb.Quad{q.proto()}
+			if (i+who)%3 == 0 {
+				// a sample the server must ignore (far outside the supported range) travels in the same
+				// message, before the real one: the real one must still be kept
+				samples = []*dagazpb.Quad{{Center: &dagazpb.Point{X: 5e6, Y: 0, Z: -5e6}, Extents: &dagazpb.Point{X: 1, Y: 0, Z: 1}}, q.proto()}
+			}
+			w.Send(sampler, &dagazpb.DagazQuadSample{Type: TQuadSample, Timestamp: ts, Samples: samples})
 			ref[samplerSess].InsertQuad(dagaz.NewQuadFromProtobuf(q.proto()))
 			if len(w.Panics()) > 0 {
 				viol = "server code panicked: " + w.Panics()[0]
